@@ -49,6 +49,24 @@ def gen_cases(rng, tier, info):
                 v = t[1][1]
             cmds.append("(expr_eval %s %s)" % (X.enc_expr(e), X.enc_row([("k", v)])))
     cases = [Case("eval-%d" % i, cmds[i:i + 400]) for i in range(0, len(cmds), 400)]
+    # string addition is concatenation at EVERY length: results around 255 / 65,535 / 65,536 bytes (the 8- and 16-bit length
+    # fields of the file format are not limits of the expression language), literal + literal (folded at construction),
+    # literal + column and column + column (evaluated lazily), and repeated doubling
+    big = []
+    for total in (255, 256, 65535, 65536, 65537):
+        for left in ((1, total - 1) if total > 256 or tier == "thorough" else (1,)):
+            a, b = "x" * left, "y" * (total - left)
+            big.append(("bin", "add", ("lit", a), ("lit", b)))
+    dbl = ("lit", "ab")
+    for _ in range(15):
+        dbl = ("bin", "add", dbl, dbl)                 # 2^16 characters, built by doubling
+    big.append(("bin", "eq", dbl, ("lit", "ab")))
+    big.append(("bin", "lt", ("lit", "abab"), dbl))
+    bcmds = []
+    for t in big:
+        for e, row in forms(t):
+            bcmds.append("(expr_eval %s %s)" % (X.enc_expr(e), X.enc_row(row)))
+    cases += [Case("concat-%d" % i, bcmds[i:i + 6]) for i in range(0, len(bcmds), 6)]
     info.update({"trees": len(trees), "depth1_trees": depth1, "random_trees": n_rand, "commands": len(cmds),
                  "exhaustive": True, "exhaustive_note": "depth-1 trees over all 18 operators x 12 literals are complete"})
     return cases
